@@ -653,6 +653,38 @@ def build_input(ctx, rng, label, par):
     return {"x": x, "xu": xu, "P": P}, d, N, K, x.nsnapshots
 
 
+ARRAY_FIELDS = ("positions", "particle_type", "hmatrix", "boxlength", "boxbounds", "realbounds")
+
+
+def in_place(inp, inp1):
+    """write the transformed configuration into the ORIGINAL snapshot objects' arrays; returns what is needed to undo it, or None when
+    an array is read-only / changes shape (then the transformation cannot be done in place)"""
+    todo = []
+    for key in ("x", "xu"):
+        a, b = inp.get(key), inp1.get(key)
+        if a is None or b is None:
+            continue
+        if len(a.snapshots) != len(b.snapshots):
+            return None
+        for sa, sb in zip(a.snapshots, b.snapshots):
+            for f in ARRAY_FIELDS:
+                va, vb = getattr(sa, f), getattr(sb, f)
+                if va is None and vb is None:
+                    continue
+                if va is None or vb is None or not isinstance(va, np.ndarray) or va.shape != np.shape(vb) or not va.flags.writeable:
+                    return None
+                todo.append((va, np.asarray(vb)))
+    saved = [(va, va.copy()) for va, _ in todo]
+    for va, vb in todo:
+        va[...] = vb
+    return saved
+
+
+def restore(saved):
+    for va, old in saved:
+        va[...] = old
+
+
 def run(ctx):
     from ..harness import fresh_dir, drop_dir
     wd = fresh_dir("c07")
@@ -700,6 +732,26 @@ def run(ctx):
             haz = Hazard(inp, inp["P"]["ppp"])
             if compare(ctx, key, tr, r0, r1, haz, info, obs, inp["P"]):
                 ctx.count(kind)
+            # the same transformation carried out IN PLACE on the caller's own objects (a dilation / permutation / shift loop that reuses
+            # its arrays): the analysis of the updated objects must obey the symmetry just the same -- nothing may be remembered under an
+            # array's identity
+            if np.random.default_rng([ctx.seed, ctx.shard, len(label), int(N), ctx.evaluations]).random() < 0.4:
+                # the caller's objects are analysed once more immediately before they are updated, so that whatever the code may have
+                # remembered last belongs to exactly these objects (a repeat: must also reproduce the first answer)
+                okw, rw = ctx.call(key + "/repeat_before_update", OBS[obs], inp, wd, data=info)
+                if okw:
+                    compare(ctx, key + "/repeat_before_update", T("identity"), r0, rw, haz, info, obs, inp["P"])
+                saved = in_place(inp, inp1)
+                if saved is None:
+                    ctx.skip("in_place")
+                else:
+                    try:
+                        inp2 = {"P": inp1["P"], "x": inp.get("x"), "xu": inp.get("xu")}
+                        ok2, r2 = ctx.call(key + "/in_place", OBS[obs], inp2, wd, data=info)
+                    finally:
+                        restore(saved)
+                    if ok2 and compare(ctx, key + "/in_place", tr, r0, r2, haz, info, obs, inp["P"]):
+                        ctx.count("in_place")
             if ctx.out_of_time():
                 break
     drop_dir(wd)
